@@ -38,6 +38,11 @@ def make_composer():
                 params = {'spec': sp, 'name': sp['name']}
                 if sp.get('_schema'):
                     params['_schema'] = copy.deepcopy(sp['_schema'])
+                if sp.get('shared_params'):
+                    # the composer keeps one parameter dictionary per process and hands
+                    # it to every process it builds from it (as a config dictionary does)
+                    shared = self.__dict__.setdefault('_verif_shared', {})
+                    params = shared.setdefault(sp['name'], params)
                 if sp.get('raw_schema'):
                     from dst.parties import RawProc
                     out[sp['name']] = RawProc(params)
@@ -129,6 +134,18 @@ def gen_case(seed):
         ov = 'ov_' + sp['name']
         sp['vars'] = list(sp['vars']) + [ov]
         units[tag]['override'] = {sp['name']: {'acc': {ov: {'_default': r.rint(300, 400)}}}}
+    # a process whose parameter dictionary (with a `_schema` entry) is shared by every
+    # process the composer builds from it (own stream: earlier seeds keep their cases)
+    shared_units = []
+    for tag in ('u', 'v', 'w'):
+        rs = Rng(derive(seed, 'shared_params', tag))
+        p0 = units[tag]['procs'][0]
+        if rs.chance(25) and not p0.get('raw_schema'):
+            sv = 'sv_' + p0['name']
+            p0['vars'] = list(p0['vars']) + [sv]
+            p0['_schema'] = {'acc': {sv: {'_default': rs.rint(50, 60)}}}
+            p0['shared_params'] = True
+            shared_units.append(tag)
     hist = []
     names = []
     n = 0
@@ -178,6 +195,15 @@ def gen_case(seed):
                 pn = units[g['unit']]['procs'][0]['name']
                 hist.append({'op': 'override', 'into': g['out'], 'target': list(g['path']) + [pn],
                              'var': 'a0', 'default': r.rint(700, 800)})
+    for tag in shared_units:
+        gens = [h for h in hist if h['op'] == 'generate' and h['unit'] == tag]
+        rs = Rng(derive(seed, 'shared_override', tag))
+        if len(gens) >= 2 and rs.chance(70):
+            # an override naming that process in one of the composites only
+            g = gens[rs.below(len(gens))]
+            hist.append({'op': 'override', 'into': g['out'],
+                         'target': list(g['path']) + [units[tag]['procs'][0]['name']],
+                         'var': 'a0', 'default': rs.rint(700, 800)})
     # entry-point differential
     run_unit = r.pick(['u', 'v', 'w'])
     ops = []
